@@ -339,6 +339,31 @@ fn eval_inner(op: &Op, pre: Option<(&Shared, &[(String, Ctx)])>, chans: Option<&
             }
             format!("churn {:016x}", f.0)
         }
+        Op::Zip { e1, t1, e2, t2, n } => match (build(e1, &Ctx::Default), build(e2, &Ctx::Default)) {
+            (Ok(a), Ok(b)) => {
+                let (mut ia, mut ib) = (a.iter(*t1), b.iter(*t2));
+                let (mut va, mut vb) = (Vec::new(), Vec::new());
+                let (mut da, mut db) = (false, false);
+                for _ in 0..*n {
+                    if !da {
+                        match ia.next() {
+                            Some(s) => va.push(s),
+                            None => da = true,
+                        }
+                    }
+                    if !db {
+                        match ib.next() {
+                            Some(s) => vb.push(s),
+                            None => db = true,
+                        }
+                    }
+                }
+                drop((ia, ib));
+                // rendered exactly like two independent `Iter` operations
+                format!("{} | {}", take_n(Box::new(va.into_iter()), *n).join(""), take_n(Box::new(vb.into_iter()), *n).join(""))
+            }
+            (Err(m), _) | (_, Err(m)) => format!("{m} | {m}"),
+        },
         Op::Revisit { e, c, t1, t2 } => match build(e, c) {
             Ok(oh) => {
                 let sn = |t: i64| simcore::catch(|| format!("{} {}", oh.state(t), oh.next_change(t))).unwrap_or_else(|m| format!("PANIC: {m}"));
@@ -465,6 +490,10 @@ pub fn reference_ops(op: &Op, prebuilt: &[(String, Ctx)]) -> Vec<Op> {
             Op::StateNext { e: e.clone(), c: c.clone(), t: *t1 },
             Op::StateNext { e: e.clone(), c: c.clone(), t: *t2 },
             Op::StateNext { e: e.clone(), c: c.clone(), t: *t1 },
+        ],
+        Op::Zip { e1, t1, e2, t2, n } => vec![
+            Op::Iter { e: e1.clone(), c: Ctx::Default, t: *t1, n: *n },
+            Op::Iter { e: e2.clone(), c: Ctx::Default, t: *t2, n: *n },
         ],
         Op::Recontext { e, c1, c2, t } => vec![
             Op::StateNext { e: e.clone(), c: c1.clone(), t: *t },
